@@ -99,6 +99,7 @@ type StreamCfg struct {
 	NoCtrl    bool
 	Budget    int // total payload bytes
 	OnlyData  bool
+	Rsv23     bool // receiver negotiated an extension: frames may carry RSV2/RSV3
 }
 
 // Msg is one message of the model.
@@ -246,6 +247,11 @@ func GenStream(r *eng.Run, cfg StreamCfg) *Stream {
 		f := drawCtrl(r, cfg, &budget)
 		s.Frames = append(s.Frames, f)
 		s.Items = append(s.Items, Item{Ctrl: f})
+	}
+	if cfg.Rsv23 {
+		for _, f := range s.Frames {
+			f.Rsv = byte(r.T.Int(sim.LMisc, 4))
+		}
 	}
 	s.Wire = ref.Encode(s.Frames)
 	return s
